@@ -103,6 +103,27 @@ func selfTest(c *Ctx) (int, error) {
 		}
 		c.logf("refinement: %s = TRUE (what the pinned code did) is rejected by the contract clauses", dev)
 	}
+	for dev, want := range map[string]string{"DevPeekWholeBuffer = FALSE": "", "DevPeekAtStreamEnd = FALSE": "", "Direct = TRUE": ""} {
+		_ = want
+		b, err := os.ReadFile(filepath.Join(c.specDir(), "MC_ReaderRefine.cfg"))
+		if err != nil {
+			return 0, err
+		}
+		flipped := strings.Replace(dev, "FALSE", "TRUE", 1)
+		if dev == "Direct = TRUE" {
+			flipped = "Direct = FALSE"
+		}
+		name := "ST_R_" + strings.Fields(dev)[0] + ".cfg"
+		res, err := c.TLC(tlc.Run{Module: "ReaderRefine", Cfg: name, Timeout: 5 * time.Minute,
+			Inline: map[string]string{name: strings.Replace(string(b), dev, flipped, 1)}})
+		if err != nil {
+			return 0, err
+		}
+		if res.Violated != "Refines" {
+			return 0, fmt.Errorf("ReaderRefine with %s is not rejected: the refinement check is vacuous there", flipped)
+		}
+		c.logf("refinement: ReaderMech with %s (what the pinned code did / still does for non-bufio ByteReaders) is rejected by the contract clauses", flipped)
+	}
 	c.ev.Evaluations = 2
 	c.ev.nontrivial("writer-trace-corruption")
 	c.ev.nontrivial("reader-trace-corruption")
